@@ -452,3 +452,43 @@ pub fn run(tier: Tier, seed: u64) -> i32 {
         run.run_random("documents", tier.pick(40_000, 1_000_000), 400, |u| random_case(u, tier.pick(3, 4)));
     })
 }
+
+/// entry for the libFuzzer data-text target: if the text is JSON (serde_json accepts it), every
+/// loader that accepts it must load the same document
+pub fn fuzz_loaders_agree(text: &str) -> Result<(), String> {
+    let j = match serde_json::from_str::<J>(text) {
+        Ok(j) => j,
+        Err(_) => return Ok(()),
+    };
+    // numbers outside i64 / finite f64 are not covered by the statement
+    fn plain(j: &J) -> bool {
+        match j {
+            J::Number(n) => n.as_i64().is_some() || n.as_f64().map_or(false, |f| f.is_finite() && n.as_u64().is_none()),
+            J::Array(a) => a.iter().all(plain),
+            J::Object(o) => o.values().all(plain),
+            _ => true,
+        }
+    }
+    if !plain(&j) || !j.is_object() {
+        return Ok(());
+    }
+    let want = V::from_json(&j);
+    let mut ev = 0;
+    for via in ["payload", "library"] {
+        match load_dump(text, via, &mut ev) {
+            Ok(v) => {
+                if v != want {
+                    return Err(format!("JSON text loaded via {} as {} instead of {}", via, v.to_json(), want.to_json()));
+                }
+            }
+            Err(e) => {
+                if e.starts_with("panic") {
+                    return Err(e);
+                }
+                // an empty top-level map / duplicate keys etc. may be rejected or dumped differently:
+                // only a *different* accepted document is a violation
+            }
+        }
+    }
+    Ok(())
+}
